@@ -34,8 +34,8 @@ from simkit.rng import seed_globals  # noqa: E402
 from simkit.world import InvalidScenario, Monitor, Violation, result, run_sim  # noqa: E402
 
 PROPERTY = "C10"
-RUNS = {"quick": 7000, "thorough": 1_000_000}
-WALL = {"quick": 45, "thorough": 1500}
+RUNS = {"quick": 6000, "thorough": 1_000_000}
+WALL = {"quick": 50, "thorough": 1500}
 BATCH = {"quick": 50, "thorough": 500}
 SELFTEST_RUNS = 12
 RULE = (
@@ -96,7 +96,7 @@ EXPECTED_PROBES = [
     "probe.tua_zero_checked", "probe.tua_positive_checked", "probe.tua_guard_1ns", "probe.wait_iteration_multi_step",
     "probe.adaptive_rate_changed", "probe.adaptive_hit_min", "probe.adaptive_hit_max", "probe.adaptive_feedback_delayed",
     "probe.burst_same_instant", "probe.distributed_overlapping_requests", "probe.distributed_rejected",
-    "probe.inductor_queued", "probe.large_base_offset",
+    "probe.distributed_sequential_bound_checked", "probe.inductor_queued", "probe.large_base_offset",
 ]
 SHRINK_SKIP = ("kind", "type", "mode")
 
@@ -394,6 +394,8 @@ class _QueueingRun:
             t = _op_time(self.ops[k + 1], now, self.win, self.policy, True)
             return [self._arrival(k + 1, t), self._tick(k + 1, t)]
         if ev.event_type == "tick":
+            if self.probe is not None:      # state just before the arrival at this very instant
+                self.probe.check(self.policy, ev.time, "just before an arrival")
             return [self._arrival(k, now), self._tick(k, now, "tock")]
         if k + 1 >= self.n:
             return None
@@ -799,6 +801,14 @@ class _DistRun:
                     f"(the forward event is stamped with the arrival instant, which lies in the past once the store round trip has elapsed)")
         if status == "budget":
             return ("C10/drain-stalls/DistributedRateLimiter/delivery-budget", "delivery budget exhausted")
+        if not self.flags["overlap"]:
+            # requests never overlapped a store round trip: the read-modify-write is exact, so the documented
+            # "global_limit requests across all instances per window" must hold (boundary instants attributed tolerantly)
+            # (the limiter counts a request in the window of its arrival instant, not of the later forward)
+            b = M.bound_fixed(sorted(self.arrived[x[1]][1] for x in self.sink_log), self.win, self.sc.get("limit", 1), two_n=False)
+            if b:
+                return (f"C10/bound/DistributedRateLimiter/sequential-{b[0]}", b[1])
+            self.flags["sequential_bound_checked"] = 1
         return None
 
 
@@ -824,6 +834,7 @@ def _run_distributed(sc):
     lat = bool(sc.get("read_lat", 0) or sc.get("write_lat", 0))
     klass = f"distributed/{'latency' if lat else 'zero-latency'}"
     counters = {"probe.distributed_overlapping_requests": h.flags["overlap"], "probe.distributed_rejected": h.flags["rejected"],
+                "probe.distributed_sequential_bound_checked": h.flags["sequential_bound_checked"],
                 "probe.large_base_offset": int(h.base >= 1000 * NS),
                 "requests.delivered": len(h.arrived), "requests.forwarded": len(h.sink_log)}
     if sig:
